@@ -32,6 +32,213 @@ let piece_of (s : string) : piece =
 
 let e = LE
 
+(* ---- protocol level --------------------------------------------------- *)
+let num s = n_of_z (Z.of_string s)
+let flag s = s <> "0"
+let ip4_of h : ip4 =
+  match bytes_of_hex h with
+  | [a; b; c; d] -> (((a, b), c), d)
+  | _ -> failwith "ip4"
+let show_cres = function
+  | COk v -> "ck=" ^ s_of_n v
+  | CErrTooBig (a, m) -> Printf.sprintf "err=%s,%s" (s_of_n a) (s_of_n m)
+  | CPanic -> "PANIC"
+let show_upd = function
+  | UpdOk v -> "ck=" ^ s_of_n v
+  | UpdErrPayloadLen (a, m) -> Printf.sprintf "err=%s,%s" (s_of_n a) (s_of_n m)
+  | UpdErrIcmpv6InIpv4 -> "err=icmpv6-in-ipv4"
+  | UpdPanic -> "PANIC"
+let show_with = function
+  | UWOk (_, v) -> "ck=" ^ s_of_n v
+  | UWErrTooBig (a, m) -> Printf.sprintf "err=%s,%s" (s_of_n a) (s_of_n m)
+let len_n l = n_of_int (List.length l)
+let n_lt a b = Z.lt (z_of_n a) (z_of_n b)
+
+(* the spec's answer incl. the API's range check (the right-hand sides of the theorems) *)
+let guarded limit payload v =
+  if n_lt limit (len_n payload) then Printf.sprintf "err=%s,%s" (s_of_n (len_n payload)) (s_of_n limit)
+  else "ck=" ^ s_of_n v
+let n_sub a b = n_of_z (Z.sub (z_of_n a) (z_of_n b))
+let u16max = n_of_int 65535
+let u32max = n_of_z (Z.of_string "4294967295")
+
+let udp_of = function
+  | sp :: dp :: l :: rest -> ({ u_sport = num sp; u_dport = num dp; u_length = num l }, rest)
+  | _ -> failwith "udp args"
+let tcp_of = function
+  | sp :: dp :: sq :: ak :: fl :: w :: u :: o :: rest ->
+    let f = int_of_string fl in
+    let b k = f land k <> 0 in
+    ({ t_sport = num sp; t_dport = num dp; t_seq = num sq; t_ack_no = num ak;
+       t_ns = b 256; t_fin = b 1; t_syn = b 2; t_rst = b 4; t_psh = b 8; t_ack = b 16;
+       t_urg = b 32; t_ece = b 64; t_cwr = b 128; t_window = num w; t_urgent = num u;
+       t_options = bytes_of_hex o }, rest)
+  | _ -> failwith "tcp args"
+let b4 h = match bytes_of_hex h with [a; b; c; d] -> (a, b, c, d) | _ -> failwith "b4"
+let icmp4_of = function
+  | "unk" :: ty :: code :: b :: rest -> let (a, b, c, d) = b4 b in (I4Unknown (num ty, num code, a, b, c, d), rest)
+  | "erep" :: id :: seq :: rest -> (I4EchoReply (num id, num seq), rest)
+  | "ereq" :: id :: seq :: rest -> (I4EchoRequest (num id, num seq), rest)
+  (* DestUnreachableHeader::from_values: code 4 carries the mtu *)
+  | "du" :: code :: mtu :: rest -> ((if code = "4" then I4FragNeeded (num mtu) else I4DestUnreach (num code)), rest)
+  | "red" :: code :: gw :: rest -> (I4Redirect (num code, ip4_of gw), rest)
+  | "te" :: code :: rest -> (I4TimeExceeded (num code), rest)
+  (* ParameterProblemHeader::from_values: code 0 carries the pointer *)
+  | "pp" :: code :: p :: rest -> ((if code = "0" then I4ParamPointer (num p) else I4ParamOther (num code)), rest)
+  | "tsq" :: id :: seq :: o :: r :: t :: rest -> (I4TimestampRequest (num id, num seq, num o, num r, num t), rest)
+  | "tsr" :: id :: seq :: o :: r :: t :: rest -> (I4TimestampReply (num id, num seq, num o, num r, num t), rest)
+  | _ -> failwith "icmp4 args"
+let icmp6_of = function
+  | "unk" :: ty :: code :: b :: rest -> let (a, b, c, d) = b4 b in (I6Unknown (num ty, num code, a, b, c, d), rest)
+  | "du" :: code :: rest -> (I6DestUnreach (num code), rest)
+  | "ptb" :: mtu :: rest -> (I6PacketTooBig (num mtu), rest)
+  | "te" :: code :: rest -> (I6TimeExceeded (num code), rest)
+  | "pp" :: code :: p :: rest -> (I6ParamProblem (num code, num p), rest)
+  | "ereq" :: id :: seq :: rest -> (I6EchoRequest (num id, num seq), rest)
+  | "erep" :: id :: seq :: rest -> (I6EchoReply (num id, num seq), rest)
+  | "rs" :: rest -> (I6RouterSolicitation, rest)
+  | "ra" :: chl :: m :: o :: lt :: rest -> (I6RouterAdvertisement (num chl, flag m, flag o, num lt), rest)
+  | "ns" :: rest -> (I6NeighborSolicitation, rest)
+  | "na" :: r :: s :: o :: rest -> (I6NeighborAdvertisement (flag r, flag s, flag o), rest)
+  | "red" :: rest -> (I6Redirect, rest)
+  | _ -> failwith "icmp6 args"
+let igmp_of = function
+  | "q" :: m :: g :: rest -> (GQuery (num m, ip4_of g), rest)
+  | "qs" :: m :: g :: r :: q :: n :: rest -> (GQueryWithSources (num m, ip4_of g, num r, num q, num n), rest)
+  | "r1" :: g :: rest -> (GReportV1 (ip4_of g), rest)
+  | "r2" :: g :: rest -> (GReportV2 (ip4_of g), rest)
+  | "r3" :: f :: n :: rest ->
+    (match bytes_of_hex f with [f0; f1] -> (GReportV3 (f0, f1, num n), rest) | _ -> failwith "r3")
+  | "lg" :: g :: rest -> (GLeaveGroup (ip4_of g), rest)
+  | "unk" :: ty :: r1 :: r :: rest -> (GUnknown (num ty, num r1, ip4_of r), rest)
+  | _ -> failwith "igmp args"
+let transport_of kind args =
+  match kind with
+  | "udp" -> let (h, r) = udp_of args in (THUdp h, r)
+  | "tcp" -> let (h, r) = tcp_of args in (THTcp h, r)
+  | "icmp4" -> let (t, r) = icmp4_of args in (THIcmp4 t, r)
+  | "icmp6" -> let (t, r) = icmp6_of args in (THIcmp6 t, r)
+  | _ -> failwith "transport kind"
+
+let proto tag args =
+  match tag, args with
+  | "ip4h", [dscp; ecn; tl; id; df; mf; fo; ttl; pr; s; d; o] ->
+    let h = { v4_dscp = num dscp; v4_ecn = num ecn; v4_total_len = num tl; v4_ident = num id;
+              v4_df = flag df; v4_mf = flag mf; v4_frag_off = num fo; v4_ttl = num ttl;
+              v4_proto = num pr; v4_src = ip4_of s; v4_dst = ip4_of d; v4_options = bytes_of_hex o } in
+    "ck=" ^ s_of_n (ipv4_calc_header_checksum e h) ^ " | ck=" ^ s_of_n (ipv4_header_checksum_spec h)
+  | "udp4", _ ->
+    (match udp_of args with
+     | (h, [s; d; p]) ->
+       let p = bytes_of_hex p in
+       show_cres (udp_calc_checksum_ipv4_raw e h (ip4_of s) (ip4_of d) p) ^ " | " ^
+       guarded (n_of_int 65527) p (udp4_spec (ip4_of s) (ip4_of d) h h.u_length p)
+     | _ -> failwith "udp4")
+  | "udp6", _ ->
+    (match udp_of args with
+     | (h, [s; d; p]) ->
+       let p = bytes_of_hex p and s = bytes_of_hex s and d = bytes_of_hex d in
+       show_cres (udp_calc_checksum_ipv6_raw e h s d p) ^ " | " ^
+       guarded (n_sub u32max (n_of_int 8)) p (udp6_spec s d h h.u_length p)
+     | _ -> failwith "udp6")
+  | "udp4w", [sp; dp; s; d; p] ->
+    let p = bytes_of_hex p in
+    let h = { u_sport = num sp; u_dport = num dp; u_length = N.add (n_of_int 8) (len_n p) } in
+    show_with (udp_with_ipv4_checksum e (num sp) (num dp) (ip4_of s) (ip4_of d) p) ^ " | " ^
+    guarded (n_of_int 65527) p (udp4_spec (ip4_of s) (ip4_of d) h h.u_length p)
+  | "udp6w", [sp; dp; s; d; p] ->
+    let p = bytes_of_hex p and s = bytes_of_hex s and d = bytes_of_hex d in
+    let h = { u_sport = num sp; u_dport = num dp; u_length = N.add (n_of_int 8) (len_n p) } in
+    show_with (udp_with_ipv6_checksum e (num sp) (num dp) s d p) ^ " | " ^
+    guarded (n_of_int 65527) p (udp6_spec s d h h.u_length p)
+  | "tcp4", _ ->
+    (match tcp_of args with
+     | (h, [s; d; p]) ->
+       let p = bytes_of_hex p in
+       show_cres (tcp_calc_checksum_ipv4_raw e h (ip4_of s) (ip4_of d) p) ^ " | " ^
+       guarded (n_sub u16max (N.add (n_of_int 20) (len_n h.t_options))) p (tcp4_spec (ip4_of s) (ip4_of d) h p)
+     | _ -> failwith "tcp4")
+  | "tcp6", _ ->
+    (match tcp_of args with
+     | (h, [s; d; p]) ->
+       let p = bytes_of_hex p and s = bytes_of_hex s and d = bytes_of_hex d in
+       show_cres (tcp_calc_checksum_ipv6_raw e h s d p) ^ " | " ^
+       guarded (n_sub u32max (N.add (n_of_int 20) (len_n h.t_options))) p (tcp6_spec s d h p)
+     | _ -> failwith "tcp6")
+  | "tcp4hs", [hb; s; d; p] ->
+    (match tcp_header_slice_from_slice (bytes_of_hex hb) with
+     | None -> "reject | reject"
+     | Some hdr ->
+       let p = bytes_of_hex p in
+       show_cres (tcp_hslice_calc_checksum_ipv4_raw e hdr (ip4_of s) (ip4_of d) p) ^ " | " ^
+       guarded (n_sub u16max (len_n hdr)) p (tcp4_raw_spec (ip4_of s) (ip4_of d) hdr p))
+  | "tcp6hs", [hb; s; d; p] ->
+    (match tcp_header_slice_from_slice (bytes_of_hex hb) with
+     | None -> "reject | reject"
+     | Some hdr ->
+       let p = bytes_of_hex p and s = bytes_of_hex s and d = bytes_of_hex d in
+       show_cres (tcp_hslice_calc_checksum_ipv6_raw e hdr s d p) ^ " | " ^
+       guarded (n_sub u32max (len_n hdr)) p (tcp6_raw_spec s d hdr p))
+  (* TcpSlice::from_slice performs the same three checks as TcpHeaderSlice::from_slice *)
+  | "tcp4s", [b; s; d] ->
+    let b = bytes_of_hex b in
+    (match tcp_header_slice_from_slice b with
+     | None -> "reject | reject"
+     | Some hdr ->
+       let data = List.filteri (fun i _ -> i >= List.length hdr) b in
+       show_cres (tcp_slice_calc_checksum_ipv4 e b (ip4_of s) (ip4_of d)) ^ " | " ^
+       (if n_lt u16max (len_n b) then Printf.sprintf "err=%s,65535" (s_of_n (len_n b))
+        else "ck=" ^ s_of_n (tcp4_raw_spec (ip4_of s) (ip4_of d) hdr data)))
+  | "tcp6s", [b; s; d] ->
+    let b = bytes_of_hex b and s = bytes_of_hex s and d = bytes_of_hex d in
+    (match tcp_header_slice_from_slice b with
+     | None -> "reject | reject"
+     | Some hdr ->
+       let data = List.filteri (fun i _ -> i >= List.length hdr) b in
+       show_cres (tcp_slice_calc_checksum_ipv6 e b s d) ^ " | " ^
+       "ck=" ^ s_of_n (tcp6_raw_spec s d hdr data))
+  | "icmp4", _ ->
+    (match icmp4_of args with
+     | (t, [p]) ->
+       let p = bytes_of_hex p in
+       "ck=" ^ s_of_n (icmp4_calc_checksum e t p) ^ " | ck=" ^ s_of_n (icmp4_spec t p)
+     | _ -> failwith "icmp4")
+  | "icmp6", _ ->
+    (match icmp6_of args with
+     | (t, [s; d; p]) ->
+       let p = bytes_of_hex p and s = bytes_of_hex s and d = bytes_of_hex d in
+       show_cres (icmp6_calc_checksum e t s d p) ^ " | " ^
+       guarded (n_sub u32max (n_of_int 8)) p (icmp6_spec s d t p)
+     | _ -> failwith "icmp6")
+  (* Icmpv6Slice::from_slice: 8 <= len (<= u32::MAX) *)
+  | "icmp6v", [b; s; d] ->
+    let b = bytes_of_hex b and s = bytes_of_hex s and d = bytes_of_hex d in
+    if List.length b < 8 then "reject | reject"
+    else
+      Printf.sprintf "valid=%d | valid=%d"
+        (if icmp6_is_checksum_valid e b s d then 1 else 0)
+        (if icmp6_valid_spec s d b then 1 else 0)
+  | "igmp", _ ->
+    (match igmp_of args with
+     | (t, [p]) ->
+       let p = bytes_of_hex p in
+       "ck=" ^ s_of_n (igmp_calc_checksum e t p) ^ " | ck=" ^ s_of_n (igmp_spec t p)
+     | _ -> failwith "igmp")
+  | "upd4", kind :: rest ->
+    (match transport_of kind rest with
+     | (th, [s; d; p]) ->
+       let p = bytes_of_hex p in
+       show_upd (update_checksum_ipv4 e th (ip4_of s) (ip4_of d) p) ^ " | " ^
+       show_upd (update4_spec th (ip4_of s) (ip4_of d) p)
+     | _ -> failwith "upd4")
+  | "upd6", kind :: rest ->
+    (match transport_of kind rest with
+     | (th, [s; d; p]) ->
+       let p = bytes_of_hex p and s = bytes_of_hex s and d = bytes_of_hex d in
+       show_upd (update_checksum_ipv6 e th s d p) ^ " | " ^ show_upd (update6_spec th s d p)
+     | _ -> failwith "upd6")
+  | _ -> failwith ("bad c09 case: " ^ tag)
+
 let run (line : string) : string =
   match Conv.split_ws line with
   | ["h64"; start; h] ->
@@ -65,7 +272,8 @@ let run (line : string) : string =
     let nz = if r = N0 then "65535" else s_of_n r in
     let spec = Printf.sprintf "oc=%s nz=%s oc32=%s nz32=%s" (s_of_n r) nz (s_of_n r) nz in
     m ^ " | " ^ spec
-  | _ -> failwith ("bad c09 case: " ^ line)
+  | tag :: args -> proto tag args
+  | [] -> failwith ("bad c09 case: " ^ line)
 
 let () =
   Conv.iter_lines Sys.argv.(1) (fun l ->
